@@ -599,8 +599,8 @@ def guard_flag_rule(ctx):
             sets = any(x.get("k") == "assign" and sir.expr_str(x["l"]) == "has_wrap_to_string" and x["r"].get("v") is True for x in sir.walk(br))
             obs.append(ob("C01.guard/wrap-flag#%d" % k, sets, ctx.where(g), "the branch that builds this `+` chain records that its operands are wrapped (has_wrap_to_string = true): %s" % sets,
                           witness=None if sets else "{{a}}{{b}}{{c}} is wrapped twice; printing it reaches panic!(\"illegal expression\") in the expression printer"))
-    if k < 3:
-        obs.append(ob("C01.floor/guard", False, ctx.where(g), "only %d concatenation sites found (floor 3)" % k))
+    if k < 1:
+        obs.append(ob("C01.floor/guard", False, ctx.where(g), "no concatenation site found (floor 1)"))
     return obs
 
 
